@@ -1,6 +1,7 @@
 package main
 
 import (
+	"regexp"
 	"fmt"
 	"go/token"
 	"go/types"
@@ -140,6 +141,28 @@ func mapOrigin(v ssa.Value, depth int) (field *types.Var, owner string, nest int
 	return
 }
 
+var paramTokenRE = regexp.MustCompile(`\bP\d+\b`)
+
+// paramMapOrigin: the map value is (an element of) a map-typed parameter of its function
+func paramMapOrigin(v ssa.Value, depth int) (*ssa.Parameter, int) {
+	if depth > 6 {
+		return nil, 0
+	}
+	switch x := v.(type) {
+	case *ssa.Parameter:
+		if _, ok := types.Unalias(x.Type()).Underlying().(*types.Map); ok {
+			return x, 0
+		}
+	case *ssa.Lookup:
+		if p, n := paramMapOrigin(x.X, depth+1); p != nil {
+			return p, n + 1
+		}
+	case *ssa.Extract:
+		return paramMapOrigin(x.Tuple, depth+1)
+	}
+	return nil, 0
+}
+
 func paramSig(f *ssa.Function) string {
 	var s []string
 	for _, p := range f.Params {
@@ -176,7 +199,45 @@ func collectMapOps(c *Ctx) map[string][]mapOp {
 					continue
 				}
 				fld, owner, nest, ok := mapOrigin(m, 0)
-				if !ok || fld.Pkg() == nil || !strings.HasPrefix(fld.Pkg().Path(), modPath) {
+				if !ok {
+					// the map is a parameter of a private helper: the operation belongs to each call site's map
+					// (insertIndexEntry(f.fileNameMap, name, file, …)), key term rewritten over the caller's parameters
+					p, pnest := paramMapOrigin(m, 0)
+					if p == nil {
+						continue
+					}
+					sites, closed := closedCallSites(c, f)
+					if !closed {
+						continue
+					}
+					pi := paramIndex(f, p)
+					t, op := termOf(k, 0)
+					for _, cs := range sites {
+						if pi < 0 || pi >= len(cs.Call.Args) || cs.Parent() == f {
+							continue
+						}
+						fld2, owner2, nest2, ok2 := mapOrigin(cs.Call.Args[pi], 0)
+						if !ok2 || fld2.Pkg() == nil || !strings.HasPrefix(fld2.Pkg().Path(), modPath) {
+							continue
+						}
+						t2, op2 := t, op
+						t2 = paramTokenRE.ReplaceAllStringFunc(t2, func(tok string) string {
+							var i int
+							fmt.Sscanf(tok, "P%d", &i)
+							if i >= len(cs.Call.Args) {
+								op2 = true
+								return "?"
+							}
+							at, ao := termOf(cs.Call.Args[i], 0)
+							op2 = op2 || ao
+							return at
+						})
+						key := fmt.Sprintf("%s.%s[%d]", owner2, fld2.Name(), nest2+pnest)
+						out[key] = append(out[key], mapOp{fn: cs.Parent(), pos: ins.Pos(), term: t2, opaque: op2, del: del})
+					}
+					continue
+				}
+				if fld.Pkg() == nil || !strings.HasPrefix(fld.Pkg().Path(), modPath) {
 					continue
 				}
 				t, op := termOf(k, 0)
